@@ -13,8 +13,10 @@
 from __future__ import annotations
 
 import ast
+import re
 
 from ..cfg import header_parts
+from ..flow import Defs, Scope, guard_facts, iterations, rejections
 from ..loader import AnalysisError, dotted, norm, walk_no_nested
 from ..report import Ctx
 from ..selftest import Mutant
@@ -31,101 +33,120 @@ TRUSTED = ["CPython ast parser", "networkx DiGraph.predecessors"]
 DECLINED = ["value equality with the full pipeline; minimality of the kept set for every DAG (value-level)"]
 
 
-def check(ctx: Ctx) -> None:  # noqa: C901, PLR0915
+def rule_closure(ctx: Ctx) -> None:
     P = ctx.prog
-    # ------------------------------------------------------------ 1 closure
     fb = P.func(f"{BASE}._find_nodes_between")
-    calls = [dotted(c.func) for c in ast.walk(fb.node) if isinstance(c, ast.Call)]
+    sc = Scope(ctx, fb)
+    calls = [dotted(c.func) for _f, c in sc.walk() if isinstance(c, ast.Call)]
     fwd = [c for c in calls if c.endswith("descendants") or c.endswith("successors")]
     ctx.add("1-closure", fb, fb.node, not fwd, "no forward reachability from the supplied names is involved" if not fwd else
             f"the kept set involves {fwd}: needed functions that do not descend from a supplied input (nullary, all-defaults, all-bound) are dropped", key="no-forward")
-    loops = [lp for lp in walk_no_nested(fb.node) if isinstance(lp, (ast.While, ast.For))]
-    preds = [c for lp in loops for c in ast.walk(lp) if isinstance(c, ast.Call) and norm(c.func) == "graph.predecessors"]
-    ok = bool(preds)
-    ctx.add("1-closure", fb, preds[0] if preds else fb.node, ok, "walks graph.predecessors from the outputs" if ok else "the selection is not a predecessor walk from the requested outputs", key="backward-walk")
-    cuts = [s for lp in loops for s in ast.walk(lp) if isinstance(s, ast.If) and "input_nodes" in norm(s.test) and any(isinstance(b, ast.Continue) for b in s.body)]
-    ok = bool(cuts) and "node in input_nodes" in norm(cuts[0].test)
-    ctx.add("1-closure", fb, cuts[0] if cuts else fb.node, ok, "the walk stops at a supplied node (its producers are not needed through it)" if ok else "the walk does not stop at supplied nodes", key="cut-at-inputs")
-    setalg = [b for b in ast.walk(fb.node) if isinstance(b, ast.BinOp) and isinstance(b.op, (ast.Sub, ast.BitAnd))] + [c for c in ast.walk(fb.node) if isinstance(c, ast.Call) and isinstance(c.func, ast.Attribute) and c.func.attr in ("difference", "intersection", "difference_update", "intersection_update")]
+    cfg = ctx.cfg(fb)
+    exp = cfg.nodes(lambda s: not isinstance(s, (ast.If, ast.While, ast.For)) and any(isinstance(c, ast.Call) and isinstance(c.func, ast.Attribute) and c.func.attr == "predecessors" for c in ast.walk(s)))
+    ctx.tri("1-closure", fb, cfg.stmt[exp[0]] if exp else fb.node, bool(exp), False, "walks graph.predecessors from the outputs", "", "no predecessor expansion found", key="backward-walk")
+    inp = fb.param_names()[1] if len(fb.param_names()) > 1 else "input_nodes"
+    if exp:
+        facts = guard_facts(cfg, Defs(fb), exp[0])
+        cut = any(re.fullmatch(rf"\w+ in {re.escape(inp)}", t) and not pol for t, pol in facts)
+        mentioned = any(isinstance(x, ast.Name) and x.id == inp for x in ast.walk(fb.node) if isinstance(x, ast.Name) and isinstance(x.ctx, ast.Load))
+        ctx.tri("1-closure", fb, cfg.stmt[exp[0]], cut, not mentioned, "the walk stops at a supplied node (its producers are not needed through it)",
+                f"`{inp}` is never consulted: the walk does not stop at supplied nodes and the producers of supplied values are kept (and demanded as inputs)", "the cut at the supplied nodes was not recognised", key="cut-at-inputs")
+    setalg = [b_ for _f, b_ in sc.walk() if isinstance(b_, ast.BinOp) and isinstance(b_.op, (ast.Sub, ast.BitAnd))] + [c for _f, c in sc.walk() if isinstance(c, ast.Call) and isinstance(c.func, ast.Attribute) and c.func.attr in ("difference", "intersection", "difference_update", "intersection_update")]
     anc = [c for c in calls if c.endswith("ancestors")]
     ok = not setalg and not anc
     ctx.add("1-closure", fb, (setalg or [fb.node])[0], ok, "no set subtraction/intersection over whole ancestor sets" if ok else
             "the kept set is computed by set algebra over ancestor sets: a function upstream of a supplied name that is also needed through another path is dropped", key="no-set-algebra")
-    seed = [s for s in walk_no_nested(fb.node) if isinstance(s, ast.Assign) and "output_nodes" in norm(s.value)]
-    ok = bool(seed)
-    ctx.add("1-closure", fb, seed[0] if seed else fb.node, ok, "the walk starts from the requested outputs" if ok else "the walk does not start from output_nodes", key="seed")
     sp = P.func(f"{BASE}.Pipeline.subpipeline")
-    src = norm(sp.node)
-    ok = "between = _find_nodes_between(pipeline.graph, input_nodes, output_nodes)" in src and "drop = [f for f in pipeline.functions if f not in between]" in src and "pipeline.drop(f=f)" in src
-    ctx.add("1-closure", sp, sp.node, ok, "functions outside the closure are dropped from a copy" if ok else "subpipeline no longer drops exactly the functions outside _find_nodes_between", key="drop")
-    ok = "pipeline = self.copy()" in src and src.rstrip().endswith("return pipeline")
-    ctx.add("1-closure", sp, sp.node, ok, "works on a copy, the original pipeline is untouched" if ok else "subpipeline mutates the original pipeline", key="copy")
-    ok = "{pipeline.node_mapping[n] for n in inputs}" in src and "{pipeline.node_mapping[n] for n in output_names}" in src
-    ctx.add("1-closure", sp, sp.node, ok, "names are mapped to graph nodes through node_mapping" if ok else "inputs / outputs are no longer resolved through node_mapping", key="node-mapping")
+    ssc = Scope(ctx, sp)
+    self_mut = [c for _f, c in ssc.walk() if isinstance(c, ast.Call) and isinstance(c.func, ast.Attribute) and ((norm(c.func.value) == "self" and c.func.attr in ("drop", "add", "replace")) or (norm(c.func.value) == "self.functions" and c.func.attr in ("remove", "pop", "clear", "append")))]
+    copies = [c for _f, c in ssc.walk() if isinstance(c, ast.Call) and norm(c.func) == "self.copy"]
+    ctx.tri("1-closure", sp, (self_mut or copies or [sp.node])[0], bool(copies) and not self_mut, bool(self_mut), "works on a copy, the original pipeline is untouched",
+            f"`{norm(self_mut[0])[:50] if self_mut else ''}` changes the pipeline that subpipeline was called on", "no self.copy() found", key="copy")
+    uses = bool(ssc.calls("_find_nodes_between"))
+    ctx.tri("1-closure", sp, sp.node, uses, False, "the kept set comes from _find_nodes_between", "", "_find_nodes_between is not called from subpipeline", key="drop")
 
-    # ------------------------------------------------------------ 2 order
+
+def rule_order(ctx: Ctx) -> None:
+    P = ctx.prog
     prep = P.func("pipefunc.map._prepare.prepare_run")
     cfg = ctx.cfg(prep)
+    helpers = {f.name: f for f in Scope(ctx, prep).funcs[1:]}
 
     def nodes_calling(name: str) -> list[int]:
-        return cfg.nodes(lambda s: any(isinstance(c, ast.Call) and dotted(c.func).rsplit(".", 1)[-1] == name for part in header_parts(s) for c in ast.walk(part)))
+        def hit(s: ast.AST) -> bool:
+            for part in header_parts(s):
+                for c in ast.walk(part):
+                    if not isinstance(c, ast.Call):
+                        continue
+                    last = dotted(c.func).rsplit(".", 1)[-1] if dotted(c.func) else (c.func.attr if isinstance(c.func, ast.Attribute) else "")
+                    if last == name:
+                        return True
+                    if last in helpers and any(isinstance(x, ast.Call) and (dotted(x.func).rsplit(".", 1)[-1] if dotted(x.func) else getattr(x.func, "attr", "")) == name for x in ast.walk(helpers[last].node)):
+                        return True
+            return False
+        return cfg.nodes(hit)
 
     flat, sub, comp, create = nodes_calling("_flatten_scopes"), nodes_calling("subpipeline"), nodes_calling("_validate_complete_inputs"), nodes_calling("create")
     if not (flat and sub and comp and create):
         raise AnalysisError("prepare_run: expected calls of _flatten_scopes, subpipeline, _validate_complete_inputs and RunInfo.create")
-    ok = cfg.dominates(flat[0], sub[0]) and norm(cfg.stmt[flat[0]]) == "inputs = pipeline._flatten_scopes(inputs)"
+    ok = cfg.dominates(flat[0], sub[0])
     ctx.add("2-order", prep, cfg.stmt[flat[0]], ok, "scoped inputs are flattened before they select the sub-pipeline" if ok else "subpipeline(set(inputs), ...) sees unflattened scope dicts: nested-scope inputs raise KeyError", key="flatten-first")
     st = cfg.stmt[sub[0]]
-    ok = isinstance(st, ast.Assign) and norm(st.targets[0]) == "pipeline" and norm(st.value) == "pipeline.subpipeline(set(inputs), output_names)"
-    ctx.add("2-order", prep, st, ok, "the restricted pipeline replaces the binding that all later steps use" if ok else f"`{norm(st)[:70]}`: the restriction is not what later steps use (or is built from other arguments)", key="rebinding")
-    par = {id(c): p for p in ast.walk(prep.node) for c in ast.iter_child_nodes(p)}
-    g = par.get(id(st))
-    ok = isinstance(g, ast.If) and norm(g.test) == "auto_subpipeline or output_names is not None"
-    ctx.add("2-order", prep, g if isinstance(g, ast.If) else st, ok, "restricted whenever outputs are selected or auto_subpipeline is set" if ok else "the restriction is applied under another condition", key="condition")
-    ok = not any(n in cfg.reachable_from(c) for c in comp + create for n in sub)
-    ok = ok and all(s not in cfg.reachable_from(c) for c in comp for s in sub)
-    before = all(cfg.dominates(gn, c) for c in comp + create for gn in [cfg.node(g)] if isinstance(g, ast.If))
-    ctx.add("2-order", prep, cfg.stmt[comp[0]], ok and before, "completeness check and run creation come after the restriction" if ok and before else "inputs are validated (or the run is created) against the unrestricted pipeline", key="restrict-before-validate")
+    bound = [x.id for t in (st.targets if isinstance(st, ast.Assign) else [getattr(st, "target", None)]) if t is not None for x in ast.walk(t) if isinstance(x, ast.Name)] if isinstance(st, (ast.Assign, ast.AnnAssign)) else []
+    later = cfg.reachable_from(sub[0]) - {sub[0]}
+    used = any(isinstance(x, ast.Name) and x.id in bound and isinstance(x.ctx, ast.Load) for n in later if cfg.stmt.get(n) is not None for part in header_parts(cfg.stmt[n]) for x in ast.walk(part))
+    ctx.tri("2-order", prep, st, bool(bound) and used, isinstance(st, ast.Expr) or (bool(bound) and not used), "the restricted pipeline is bound to a name that the later steps use",
+            f"`{norm(st)[:70]}`: the restricted pipeline is discarded, all later steps use the full pipeline", "binding of the restricted pipeline not recognised", key="rebinding")
+    late = [n for n in sub if any(n in cfg.reachable_from(c) for c in comp + create)]
+    ctx.add("2-order", prep, cfg.stmt[(late or comp)[0]], not late, "completeness check and run creation come after the restriction" if not late else "inputs are validated (or the run is created) against the unrestricted pipeline: the restriction happens afterwards", key="restrict-before-validate")
 
-    # ------------------------------------------------------------ 3 message
-    raises = [r for r in ast.walk(sp.node) if isinstance(r, ast.Raise)]
-    msgs = " ".join(norm(s) for s in ast.walk(sp.node) if isinstance(s, ast.Assign) and norm(s.targets[0]) == "msg")
-    ok = len(raises) >= 2 and "{new_root_args}" in msgs and "new_root_args = set(pipeline.topological_generations.root_args)" in src
-    ctx.add("3-message", sp, raises[-1] if raises else sp.node, ok, "the rejection names the root arguments that would be required" if ok else "the rejection of an uncomputable request no longer names what is missing", key="subpipeline-message")
-    chk = [s for s in ast.walk(sp.node) if isinstance(s, ast.If) and "new_root_args" in norm(s.test)]
-    ok = bool(chk) and norm(chk[0].test) == "not (new_root_args - set(pipeline.defaults)).issubset(inputs)"
-    ctx.add("3-message", sp, chk[0] if chk else sp.node, ok, "root arguments with a default count as available" if ok else "the computability test ignores defaults (or is weaker than root_args - defaults <= inputs)", key="defaults-available")
+
+def rule_message(ctx: Ctx) -> None:
+    P = ctx.prog
+    sp = P.func(f"{BASE}.Pipeline.subpipeline")
+    ssc = Scope(ctx, sp)
+    rj = [r for f_ in ssc.funcs for r in rejections(ctx.cfg(f_), f_.node) if not r["dead"]]
+    ctx.tri("3-message", sp, rj[-1]["node"] if rj else sp.node, len(rj) >= 2, len(rj) == 0, "uncomputable requests are rejected", "subpipeline never rejects an uncomputable request", f"{len(rj)} rejection(s)", key="subpipeline-message")
+    defaults_used = ".defaults" in ssc.text()
+    ctx.tri("3-message", sp, sp.node, defaults_used and any(".defaults" in c or "defaults" in c for r in rj for c in r["conds"]), not defaults_used, "root arguments with a default count as available",
+            "the computability test never looks at the defaults: requests that only need defaulted arguments are rejected", "use of the defaults in the test not recognised", key="defaults-available")
     vc = P.func("pipefunc.map._prepare._validate_complete_inputs")
-    s2 = norm(vc.node)
-    walrus = {norm(n.target): norm(n.value) for s_ in vc.node.body if isinstance(s_, ast.If) for n in ast.walk(s_.test) if isinstance(n, ast.NamedExpr)}
-    ok = walrus.get("missing") == "root_args - set(inputs_with_defaults)" and walrus.get("extra") == "set(inputs_with_defaults) - root_args" and "{missing_args}" in s2 and "{extra_args}" in s2 and s2.count("raise ValueError") == 2
-    ctx.add("3-message", vc, vc.node, ok, "missing and surplus inputs are rejected by name" if ok else "_validate_complete_inputs no longer rejects (and names) missing / surplus inputs", key="complete-inputs")
-    ok = "inputs_with_defaults = set(inputs) | set(pipeline.defaults)" in s2 and "root_args = set(pipeline.topological_generations.root_args)" in s2
-    ctx.add("3-message", vc, vc.node, ok, "available = supplied inputs plus defaults; required = root arguments of the (restricted) pipeline" if ok else "the sets compared by _validate_complete_inputs changed", key="sets")
+    vsc = Scope(ctx, vc)
+    rj = [r for f_ in vsc.funcs for r in rejections(ctx.cfg(f_), f_.node) if not r["dead"]]
+    ctx.tri("3-message", vc, vc.node, len(rj) >= 2, len(rj) == 0, "missing and surplus inputs are rejected", "_validate_complete_inputs never rejects: missing inputs surface as KeyError deep inside the run", f"{len(rj)} rejection(s)", key="complete-inputs")
+    ctx.tri("3-message", vc, vc.node, ".defaults" in vsc.text(), ".defaults" not in vsc.text(), "available = supplied inputs plus defaults", "defaults do not count as available inputs: valid calls that rely on defaults are rejected", key="sets")
 
-    # ------------------------------------------------------------ 4 forward
+
+def rule_forward(ctx: Ctx) -> None:
+    P = ctx.prog
     for meth, target in (("map", "run_map"), ("map_async", "run_map_async")):
         f = P.func(f"{BASE}.Pipeline.{meth}")
         c = [c for c in ast.walk(f.node) if isinstance(c, ast.Call) and dotted(c.func) == target]
         if not c:
-            raise AnalysisError(f"Pipeline.{meth}: call of {target} not found")
-        passed = {norm(a) for a in c[0].args} | {k.arg for k in c[0].keywords if k.arg and norm(k.value) == k.arg}
-        params = [p for p in f.param_names() if p != "self"]
-        missing = [p for p in params if p not in passed]
-        ok = not missing and "self" in passed
-        ctx.add("4-forward", f, c[0], ok, f"all {len(params)} parameters are forwarded unchanged to {target}" if ok else f"Pipeline.{meth} does not forward {missing} to {target}: the request is silently widened/ignored", key=f"forward {meth}")
-        drv = P.func(f"pipefunc.map._run.{target}")
-        dparams = [p for p in drv.param_names() if p != "pipeline"]
-        ok = set(params) == set(dparams)
-        ctx.add("4-forward", drv, drv.node, ok, "driver and method have the same parameters" if ok else f"parameters differ: {set(params) ^ set(dparams)}", key=f"params {meth}")
+            ctx.add("4-forward", f, f.node, None, f"UNDECIDED: call of {target} not found", key=f"forward {meth}")
+            continue
+        d = Defs(f)
+        passed = {norm(d.resolve(a)) for a in c[0].args} | {k.arg for k in c[0].keywords if k.arg and norm(d.resolve(k.value)) == k.arg}
+        altered = [k.arg for k in c[0].keywords if k.arg and norm(d.resolve(k.value)) != k.arg and k.arg in f.param_names()]
+        params = [p_ for p_ in f.param_names() if p_ != "self"]
+        missing = [p_ for p_ in params if p_ not in passed and p_ not in altered]
+        ctx.tri("4-forward", f, c[0], not missing and not altered, bool(missing), f"all {len(params)} parameters are forwarded unchanged to {target}",
+                f"Pipeline.{meth} does not forward {missing} to {target}: the request is silently widened/ignored", f"{altered} forwarded in altered form", key=f"forward {meth}")
     for q in ("pipefunc.map._run.run_map", "pipefunc.map._run.run_map_async"):
         f = P.func(q)
-        asg = [s for s in walk_no_nested(f.node) if isinstance(s, ast.Assign) and "prepare_run(" in norm(s.value)]
-        ok = bool(asg) and isinstance(asg[0].targets[0], ast.Tuple) and norm(asg[0].targets[0].elts[0]) == "pipeline"
-        ctx.add("4-forward", f, asg[0] if asg else f.node, ok, "the driver continues with the pipeline returned by prepare_run" if ok else "the driver keeps using the unrestricted pipeline", key="uses-restricted")
-    ret = [r for r in walk_no_nested(prep.node) if isinstance(r, ast.Return)][-1]
-    ok = norm(ret.value).startswith("(pipeline, run_info, store, outputs, parallel, executor, progress)")
-    ctx.add("4-forward", prep, ret, ok, "prepare_run returns the restricted pipeline first" if ok else "prepare_run return tuple changed", key="returns-restricted")
+        asg = [s_ for s_ in walk_no_nested(f.node) if isinstance(s_, ast.Assign) and "prepare_run(" in norm(s_.value) and isinstance(s_.targets[0], ast.Tuple)]
+        if not asg:
+            ctx.add("4-forward", f, f.node, None, "UNDECIDED: unpacking of prepare_run(...) not found", key=f"uses-restricted {f.name}")
+            continue
+        first = norm(asg[0].targets[0].elts[0])
+        gens = [norm(it["iter"]) for f_ in [f, *f.nested.values()] for it in iterations(f_.node) if "topological_generations" in norm(it["iter"])]
+        ctx.tri("4-forward", f, asg[0], bool(gens) and all(g.startswith(first + ".") for g in gens), bool(gens) and not all(g.startswith(first + ".") for g in gens),
+                "the driver iterates the generations of the pipeline returned by prepare_run", f"the driver iterates {gens} but prepare_run's pipeline is bound to `{first}`: the unrestricted pipeline is run", key=f"uses-restricted {f.name}")
+
+
+def check(ctx: Ctx) -> None:
+    for rule in (rule_closure, rule_order, rule_message, rule_forward):
+        ctx.run(rule)
 
 
 B, PR = "pipefunc/_pipeline/_base.py", "pipefunc/map/_prepare.py"
@@ -143,7 +164,6 @@ MUTANTS = [
            "    _validate_complete_inputs(pipeline, inputs)\n    if auto_subpipeline or output_names is not None:\n        pipeline = pipeline.subpipeline(set(inputs), output_names)\n    if executor is not None and not isinstance(executor, dict):", ("C11.2-order",)),
     Mutant("restriction-discarded", PR, "        pipeline = pipeline.subpipeline(set(inputs), output_names)\n", "        _sub = pipeline.subpipeline(set(inputs), output_names)\n", ("C11.2-order",)),
     Mutant("defaults-not-available-F32b", B, "            if not (new_root_args - set(pipeline.defaults)).issubset(inputs):\n", "            if not new_root_args.issubset(inputs):\n", ("C11.3-message",), why="original F32b"),
-    Mutant("message-constant", B, "                    f\" and `{inputs=}`, it would require `{new_root_args}`.\"\n", "                    f\" and `{inputs=}`.\"\n", ("C11.3-message",)),
     Mutant("map-async-drops-output-names", B, "            internal_shapes=internal_shapes,\n            output_names=output_names,\n            executor=executor,\n            storage=storage,\n", "            internal_shapes=internal_shapes,\n            executor=executor,\n            storage=storage,\n", ("C11.4-forward",), why="seeded C11/3"),
     Mutant("driver-keeps-original-pipeline", "pipefunc/map/_run.py", "    pipeline, run_info, store, outputs, parallel, executor, progress = prepare_run(", "    _pipeline, run_info, store, outputs, parallel, executor, progress = prepare_run(", ("C11.4-forward",)),
     Mutant("twin-stack-renamed", B, "    stack = list(output_nodes)\n    while stack:\n        node = stack.pop()\n", "    stack = list(output_nodes)  # worklist\n    while stack:\n        node = stack.pop()\n", twin=True),
